@@ -31,6 +31,7 @@ type ScenParams struct {
 	Kind  string `json:"kind"`
 	Cores []int  `json:"cores,omitempty"`
 	Extra string `json:"extra,omitempty"`
+	Cwd   string `json:"cwd,omitempty"` // filled in by the worker: the scratch directory of the executions
 }
 
 func (sp ScenParams) String() string {
@@ -83,6 +84,15 @@ func catalog(p ScenParams) *WSpec {
 		j := ProcSpec{Name: "j", Kind: kind, Ins: []string{"a", "b"}, Outs: []OutSpec{{Name: "out", Pattern: "{i:a}.j"}}}
 		w.Procs = []ProcSpec{src, src2, simpleProc("p", kind), j}
 		w.Edges = []Edge{fe("src", "out", "p", "in"), fe("p", "out", "j", "a"), fe("src2", "out", "j", "b")}
+	case "gjoin2": // two joined in-ports of one task, each with its own sub-stream
+		f := strings.SplitN(p.Extra, "|", 2) // "SEP|SEP2"
+		j := ProcSpec{Name: "j", Kind: "joiner", JoinSep: f[0], JoinSep2: f[1]}
+		src2 := ProcSpec{Name: "src2", Kind: "src", Items: srcItems("jn", p.Items)}
+		sub := ProcSpec{Name: "sub", Kind: "substream", Ins: []string{"in"}}
+		sub2 := ProcSpec{Name: "sub2", Kind: "substream", Ins: []string{"in"}}
+		w.Procs = []ProcSpec{src, src2, sub, sub2, j}
+		w.Edges = []Edge{fe("src", "out", "sub", "in"), fe("src2", "out", "sub2", "in"), fe("sub", "substream", "j", "x"), fe("sub2", "substream", "j", "y")}
+		return w
 	case "gsplit": // src -> FileSplitter -> {Q, R}: fan-out of IPs whose audit info is not loaded yet
 		spl := ProcSpec{Name: "split", Kind: "splitter", Ins: []string{"file"}}
 		w.Procs = []ProcSpec{src, spl, simpleProc("q", kind), simpleProc("r", kind)}
@@ -119,6 +129,16 @@ func catalog(p ScenParams) *WSpec {
 		ps := ProcSpec{Name: "ps", Kind: "psrc", Items: vals}
 		w.Procs = []ProcSpec{src, ps, pp}
 		w.Edges = []Edge{fe("src", "out", "p", "in"), {From: "ps", FromPort: "out", To: "p", ToPort: "a", Param: true}}
+	case "g8c": // parameter port fed through a parameter-forwarding process: ps -> pp -> p.a
+		pp := ProcSpec{Name: "p", Kind: kind, Ins: []string{"in"}, Params: []string{"a"}, Outs: []OutSpec{{Name: "out", Pattern: "{i:in}.{p:a}.p"}}}
+		vals := []string{}
+		for i := 0; i < p.Items; i++ {
+			vals = append(vals, fmt.Sprintf("v%d", i))
+		}
+		ps := ProcSpec{Name: "ps", Kind: "psrc", Items: vals}
+		fw := ProcSpec{Name: "pp", Kind: "ppass", Params: []string{"in"}}
+		w.Procs = []ProcSpec{src, ps, fw, pp, simpleProc("q", kind)}
+		w.Edges = []Edge{fe("src", "out", "p", "in"), {From: "ps", FromPort: "out", To: "pp", ToPort: "in", Param: true}, {From: "pp", FromPort: "out", To: "p", ToPort: "a", Param: true}, fe("p", "out", "q", "in")}
 	case "g9": // two independent branches ending in the sink
 		src2 := ProcSpec{Name: "src2", Kind: "src", Items: srcItems("jn", p.Items)}
 		w.Procs = []ProcSpec{src, src2, simpleProc("p", kind), simpleProc("q", kind)}
@@ -154,12 +174,28 @@ func catalog(p ScenParams) *WSpec {
 	default:
 		panic("unknown graph " + p.Graph)
 	}
+	if len(p.Cores) > 0 && p.Graph != "g13" {
+		k := 0
+		for i := range w.Procs {
+			if w.Procs[i].Kind == "func" || w.Procs[i].Kind == "cmd" {
+				w.Procs[i].Cores = p.Cores[k%len(p.Cores)]
+				k++
+			}
+		}
+	}
 	switch p.Extra {
 	case "subdir": // outputs of p inside not-yet-existing sub-directories
 		if ps := w.proc("p"); ps != nil {
 			for i := range ps.Outs {
 				ps.Outs[i].Pattern = "sub/dir/{i:in|basename}." + ps.Outs[i].Name
 			}
+		}
+	case "absout": // outputs of p declared with an ABSOLUTE path (destination directory existing)
+		if ps := w.proc("p"); ps != nil {
+			for i := range ps.Outs {
+				ps.Outs[i].Pattern = p.Cwd + "/abs/{i:in|basename}." + ps.Outs[i].Name
+			}
+			w.MkDirs = append(w.MkDirs, "abs")
 		}
 	case "writeidiom": // the documented Go-function idiom: task.OutIP(..).Write(..)
 		if ps := w.proc("p"); ps != nil {
